@@ -312,8 +312,19 @@ fn case_strategy() -> BoxedStrategy<UpdCase> {
                 d
             }),
     ];
-    (doc, vec(prop_oneof![2 => Just(0u8), 1 => Just(1u8), 1 => Just(2u8)], 8))
-        .prop_map(|(doc, outcomes)| UpdCase { doc, outcomes })
+    (doc, vec(prop_oneof![2 => Just(0u8), 1 => Just(1u8), 1 => Just(2u8)], 8), any::<bool>())
+        .prop_map(|(mut doc, mut outcomes, tail_prose)| {
+            // make the interesting shape frequent: first test passes, second fails, text at the end
+            if outcomes.len() >= 2 {
+                outcomes[0] = 0;
+                outcomes[1] = 1 + outcomes[1] % 2;
+            }
+            if tail_prose && matches!(doc.tail, Tail::None) {
+                doc.blocks.push(Blk::Prose { lines: vec!["Text after the last test block.".into(), "- and a list item".into()] });
+                doc.gaps.push(1);
+            }
+            UpdCase { doc, outcomes }
+        })
         .boxed()
 }
 
